@@ -566,3 +566,104 @@ Qed.
 Definition xp_tables_ok : bool := rocks_table_ok T1 && blocks_table_ok T1 && conns_table_ok T1 && gener_table_ok T1.
 Lemma xp_tables_ok_true : xp_tables_ok = true.
 Proof. vm_compute. reflexivity. Qed.
+
+(** ** the mesh in a separate ASCII file: write(filename, meshfilename) / t2data(filename, meshfilename) *)
+Lemma blocks_supd k d d0 : (k =? "ELEME") = false -> blocks (push k (supd k d d0)) = blocks d0.
+Proof.
+  intro H. unfold push, supd. rewrite H.
+  repeat match goal with |- context [if ?b then _ else _] => destruct b; [try reflexivity|] end; try reflexivity.
+  all: repeat match goal with |- context [match ?x with _ => _ end] => destruct x end; reflexivity.
+Qed.
+Lemma blocks_final d ks : forallb (fun k => negb (k =? "ELEME")) ks = true -> forall d0, blocks (final d ks d0) = blocks d0.
+Proof.
+  induction ks as [|k r IH]; intros H d0; [reflexivity|]. cbn [forallb] in H. apply andb_prop in H as [H1 H2].
+  cbn [final]. rewrite (IH H2). apply blocks_supd. apply negb_true_iff. exact H1.
+Qed.
+Definition mesh_state (d d2 : t2d) : t2d :=
+  let a := push "ELEME" (set_blocks d2 (canon_blocks T0 (blocks d))) in
+  push "CONNE" (set_conns a (canon_conns T0 (conns d))).
+Theorem read_meshfile_lines d ml : (do a <- write_blocks T0 d; do b <- write_conns T0 d; Ok (a +++ b)) = Ok ml ->
+  forall d2, forallb (wf_block T0 (rocks d2)) (blocks d) = true ->
+  forallb (wf_conn T0 (canon_blocks T0 (blocks d))) (conns d) = true ->
+  read_mesh_loop (S (length ml)) d2 ml = Ok (mesh_state d d2).
+Proof.
+  pose proof tables_ok_true as TK. unfold tables_ok in TK. repeat (apply andb_prop in TK as [TK ?]).
+  intros W d2 WB WC.
+  destruct (write_blocks T0 d) as [a|] eqn:WA; cbn [bind] in W; [|discriminate].
+  destruct (write_conns T0 d) as [b|] eqn:WBc; cbn [bind] in W; [|discriminate]. inv_ok W.
+  assert (EA : exists ba, a = kw "ELEME" :: ba).
+  { unfold write_blocks in WA. destruct (write_list _ _); cbn [bind] in WA; [|discriminate]. inv_ok WA. eauto. }
+  assert (EB : exists bb, b = kw "CONNE" :: bb).
+  { unfold write_conns in WBc. destruct (write_list _ _); cbn [bind] in WBc; [|discriminate]. inv_ok WBc. eauto. }
+  destruct EA as [ba EA]. destruct EB as [bb EB]. subst a b.
+  cbn [app length read_mesh_loop]. change (strip (slice 0 5 (kw "ELEME"))) with (s2l "ELEME"). cbn [str_eqb ceqb s2l list_ascii_of_string andb Ascii.eqb Bool.eqb].
+  match goal with H : blocks_table_ok T0 = true |- _ => rewrite (blocks_roundtrip T0 d ba H WA d2 (kw "CONNE" :: bb) WB) end.
+  cbn [bind fst snd]. destruct (length (ba ++ kw "CONNE" :: bb)%list) as [|n] eqn:L; [rewrite app_length in L; cbn in L; lia|].
+  cbn [read_mesh_loop]. change (strip (slice 0 5 (kw "CONNE"))) with (s2l "CONNE"). cbn [str_eqb ceqb s2l list_ascii_of_string andb Ascii.eqb Bool.eqb].
+  rewrite <- (app_nil_r bb).
+  match goal with H : conns_table_ok T0 = true |- _ =>
+    rewrite (conns_roundtrip T0 d bb H WBc (set_sections (set_blocks d2 (canon_blocks T0 (blocks d))) _) [] WC) end.
+  cbn [bind fst snd]. destruct n; reflexivity.
+Qed.
+
+Definition main_secs (d : t2d) : list str := filter (fun k => negb (in_str k mesh_kws)) (sections d).
+Lemma write_files_mesh_shape d d' fs : write_files (mk_wcfg 1 None None) d = Ok (d', fs) -> update_sections d = sections d -> xprec d = [] ->
+  exists all ml, write_sections T0 write_fn_names d (main_secs d) = Ok all /\
+     (do a <- write_blocks T0 d; do b <- write_conns T0 d; Ok (a +++ b)) = Ok ml /\
+     fs = mk_files ((strip (title d) +++ [nl]) :: all ++ [end_keyword d +++ [nl]])%list (Some ml) None.
+Proof.
+  intros W US XP. unfold write_files in W. rewrite US in W. cbn [w_mesh] in W.
+  replace (write_blocks T0 (set_sections d (sections d))) with (write_blocks T0 d) in W by (destruct d; reflexivity).
+  replace (write_conns T0 (set_sections d (sections d))) with (write_conns T0 d) in W by (destruct d; reflexivity).
+  destruct (do a <- write_blocks T0 d; do b <- write_conns T0 d; Ok (Some (a +++ b))) as [mesh|] eqn:WM; cbn [bind] in W; [|discriminate].
+  assert (X : (if autough2 (set_sections d (sections d)) then write_xp (mk_wcfg 1 None None) (set_sections d (sections d))
+               else Ok (set_sections d (sections d), None)) = Ok (set_sections d (sections d), None)).
+  { destruct (autough2 _); [|reflexivity]. unfold write_xp. cbn [w_xp w_echo].
+    replace (xprec (set_sections d (sections d))) with (xprec d) by (destruct d; reflexivity). rewrite XP. reflexivity. }
+  rewrite X in W. cbn [bind] in W.
+  replace (xprec (set_sections d (sections d))) with (xprec d) in W by (destruct d; reflexivity). rewrite XP in W.
+  replace (sections (set_sections d (sections d))) with (sections d) in W by (destruct d; reflexivity).
+  assert (FE : filter (fun k => negb (in_str k mesh_kws) && (negb (in_str k []) || xecho (set_sections d (sections d)))) (sections d) = main_secs d).
+  { unfold main_secs. apply filter_ext. intro k. cbn [in_str existsb negb orb]. apply andb_true_r. }
+  rewrite FE in W. rewrite write_sections_sections in W.
+  destruct (write_sections T0 write_fn_names d (main_secs d)) as [all|]; cbn [bind] in W; [|discriminate].
+  inv_ok W.
+  destruct (write_blocks T0 d) as [a|]; cbn [bind] in WM; [|discriminate].
+  destruct (write_conns T0 d) as [b|]; cbn [bind] in WM; [|discriminate]. inv_ok WM.
+  exists all, (a +++ b). split; [reflexivity|]. split; [reflexivity|]. destruct d; reflexivity.
+Qed.
+
+(** THE round trip with the mesh in a separate ASCII file (MESH): the main file's sections in any legal order,
+    then ELEME and CONNE from the mesh file, appended to the section list as read_meshfile does *)
+Theorem read_write_meshfile d ks d' fs :
+  write_files (mk_wcfg 1 None None) d = Ok (d', fs) ->
+  update_sections d = sections d -> main_secs d = map s2l ks -> xprec d = [] -> is_end (end_keyword d) = true ->
+  title_ok d = true -> chain_ok d ks (start_state d) = true -> forallb (fun k => negb (k =? "ELEME")) ks = true ->
+  let d2 := set_end_keyword (final d ks (start_state d)) (end_keyword d) in
+  forallb (wf_block T0 (rocks d2)) (blocks d) = true -> forallb (wf_conn T0 (canon_blocks T0 (blocks d))) (conns d) = true ->
+  read_files fs = Ok (mesh_state d d2).
+Proof.
+  intros W US SK XP EK TI CH NE d2 WB WC.
+  destruct (write_files_mesh_shape d d' fs W US XP) as [all [ml [WS [WM EF]]]]. subst fs. rewrite SK in WS.
+  pose proof tables_ok_true as TK. unfold tables_ok in TK.
+  apply andb_prop in TK as [TK _]. apply andb_prop in TK as [TK _]. apply andb_prop in TK as [_ K8]. unfold simul_table_ok in K8. apply andb_prop in K8 as [_ SHT].
+  unfold title_ok in TI. apply andb_prop in TI as [NL LT]. apply Nat.leb_le in LT.
+  unfold read_files. cbn [f_main f_mesh f_pdat].
+  unfold read_title. cbn [readline]. rewrite (line80 "title" _ SHT NL LT). fold (start_state d).
+  destruct (loop_sections d (end_keyword d) EK ks (start_state d)
+              (2 * length ((strip (title d) +++ [nl]) :: all ++ [end_keyword d +++ [nl]])%list + 2) all WS CH eq_refl) as [A _].
+  { pose proof (chain_lines d ks _ all WS CH). cbn [length]. rewrite app_length. lia. }
+  match goal with |- bind ?X _ = _ => assert (EX : X = Ok d2) by exact A end.
+  rewrite EX. cbn [bind].
+  assert (XF : xprec d2 = []).
+  { unfold d2. replace (xprec (set_end_keyword (final d ks (start_state d)) (end_keyword d))) with (xprec (final d ks (start_state d)))
+      by (destruct (final d ks (start_state d)); reflexivity).
+    rewrite xprec_final. reflexivity. }
+  assert (BF : blocks d2 = []).
+  { unfold d2. replace (blocks (set_end_keyword (final d ks (start_state d)) (end_keyword d))) with (blocks (final d ks (start_state d)))
+      by (destruct (final d ks (start_state d)); reflexivity).
+    rewrite (blocks_final d ks NE). reflexivity. }
+  rewrite XF.
+  assert (D2 : (if read_reinfers_echo then d2 else d2) = d2) by (destruct read_reinfers_echo; reflexivity).
+  rewrite D2, BF. apply (read_meshfile_lines d ml WM d2 WB WC).
+Qed.
